@@ -193,6 +193,13 @@ def body_engine(ctx, case):
     res = ctx.must("run_ocr_raises", eng.run_ocr, batch)
     decoded, logits = res
     chars = eng.characters
+    # what a call returned must still be what it was after later calls (callers such as process_lines keep the logits of
+    # every batch until the page is finished): the text must remain the collapse of the logits that came with it
+    kept = np.array(logits, copy=True)
+    ctx.must("run_ocr_raises", eng.run_ocr, batch[:1].copy())
+    ctx.must("run_ocr_raises", eng.run_ocr, batch[::-1].copy())
+    ctx.check(np.array_equal(np.asarray(logits), kept), "logits_of_an_earlier_batch_changed_by_a_later_batch",
+              lambda: "batch decoded %r; its logits (shape %r) were altered by later calls; paths %r" % (decoded, kept.shape, paths))
     ctx.check(logits.shape == (N, T, C), "logit_shape", lambda: "shape %r want %r" % (logits.shape, (N, T, C)))
     for n, p in enumerate(paths):
         am = [int(x) for x in logits[n].argmax(axis=1)]
